@@ -9,6 +9,8 @@ Decides (which location *forms* - mode, base register, symbolic operand byte, wi
                address expression and pointer side effect; the step equals the access width
   4 EMEM-ABS   absolute external operands: the rendered 20-bit address is the IL pointer (bit for bit)
   5 TABLES     the six addressing cases of IMemHelper.render and IMemHelper._imem_offset name the same base registers
+  6 RANGES     counted transfers: accesses inside the I-loop use addresses that move with the loop, pointers step one byte with the
+               documented wrap, registers rendered `++`/`--` are updated inside the loop (shared with C04.10)
 """
 from __future__ import annotations
 
@@ -53,6 +55,10 @@ def run(ctx: Ctx) -> None:
     cases = [c for c in base + pre if c.status == "ok" and not c.render_exc and not c.lift_exc]
     compare(ctx, rows, cases)
     helper_tables(ctx, py)
+    # counted transfers name ranges: every access inside the I-loop moves with the loop, pointers step by one byte, `++`/`--` registers
+    # are updated per byte (rule shared with C04.10)
+    from .c04 import counted_bodies
+    counted_bodies(ctx, rows, [c for c in base if c.status == "ok" and not c.render_exc and not c.lift_exc], prefix="C03.6")
 
 
 # ---------------------------------------------------------------------------
